@@ -332,3 +332,75 @@ Example C06_chunked_res_ext_fixed :
           (seq 1 (length C06_ex_res_body - 1)) = true /\
   bd_res_line_ok (bd_lines ["3;name=value12345"]) = false.
 Proof. vm_compute. repeat split. Qed.
+
+(* ==== HISTORY-LEVEL DELIVERY (PDeliv*.v): from a FRESH connection, through the API (cp_run), for EVERY chunking, callbacks answering OK ====
+   dv_log = all callback events of the run, call by call; dv_selp keeps the body-data and completion events of one direction.
+   dv_c06 h hc i last body evs: evs = data* ++ marker^k ++ [completion], k >= 1, the data payloads non-empty and concatenating to EXACTLY the body:
+   every body byte delivered once, in order; at least one end-of-body marker (NULL data), all markers after the last data event; the completion callback
+   after them, once (C06_delivery_meaning). The five framings: request Content-Length, request chunk-coded (payloads = decoded chunk data, marker after the
+   trailer), response Content-Length, response chunk-coded, response close-delimited (marker and completion delivered by htp_connp_close). k = 1 everywhere
+   except Content-Length responses with a non-empty body, which get TWO markers (C06_response_cl_two_markers: an observation about the unchanged library;
+   the property asks for "an" end-of-body marker). Premises: those of the segmentation theorems of C03 (grammar, limits, the model's framing decision, F1). *)
+Require Import Htp.Model.Base Htp.Model.MBstr Htp.Model.MConnTypes Htp.Model.MTxCommon Htp.Model.MReq Htp.Model.MRes Htp.Model.MConnp.
+Require Import Htp.Spec.SWire Htp.Spec.SBody Htp.Proof.PBody Htp.Proof.PWireExch Htp.Proof.PWireGlue Htp.Proof.PSegRun Htp.Proof.PSegFold Htp.Proof.PSegBody.
+Require Import Htp.Proof.PSegChunkedRun Htp.Proof.PSegRes Htp.Proof.PSegResRun Htp.Proof.PSegResThm Htp.Proof.PSegResChRun Htp.Proof.PSegResClose.
+Require Import Htp.Proof.PDeliv Htp.Proof.PDelivReqBody Htp.Proof.PDelivReqChunked Htp.Proof.PDelivRes Htp.Proof.PDelivResBody Htp.Proof.PDelivResChunked.
+Require Import Htp.Proof.PDelivResClose Htp.Proof.PDelivReqRs.
+Require Import Htp.Proof.PDelivThm.
+Theorem C06_delivery_meaning : forall h hc i last body evs, h <> hc -> dv_c06 h hc i last body evs ->
+  concat (map bd_ev_bytes (dv_sel h evs)) = body /\
+  (exists pre k, (1 <= k)%nat /\ dv_sel h evs = pre ++ repeat (dv_marker h i last) k /\ Forall (fun e => ev_data e <> None) pre) /\
+  dv_sel hc evs = [dv_done hc i] /\ bd_marker_ok h hc evs false = true.
+Proof. exact dv_c06_meaning. Qed.
+Theorem C06_delivery_request_cl : forall cb g r (cuts : list (list bytes)) (body : bytes) (chunks : list bytes),
+  wr_all_ok cb -> g_allow_space_uri g = false -> sg_body_ok g r body = true -> sg_cuts_ok r cuts = true -> sg_fold_fits g r cuts = true ->
+  Forall (fun x => x <> []) chunks -> concat chunks = sg_fold_wire r cuts ++ body ->
+  dv_c06 H_REQUEST_BODY_DATA H_REQUEST_COMPLETE 0 true body (dv_selp dv_rq_hook (dv_log cb g (OpOpen :: map OpReqData chunks))).
+Proof. exact dv_c06_request_cl. Qed.
+Print Assumptions C06_delivery_request_cl.
+Theorem C06_delivery_request_chunked : forall cb g r (cuts : list (list bytes)) (ks : list bd_chunk) (last : bytes) (tr : list wr_field)
+    (tcuts : list (list bytes)) (chunks : list bytes),
+  wr_all_ok cb -> g_allow_space_uri g = false -> sg_chunked_ok g r = true -> sg_cuts_ok r cuts = true -> sg_fold_fits g r cuts = true ->
+  sg_cfbody_ok g ks last tr tcuts = true ->
+  Forall (fun x => x <> []) chunks -> concat chunks = sg_fold_wire r cuts ++ sg_cfbody_wire ks last tr tcuts ->
+  dv_c06 H_REQUEST_BODY_DATA H_REQUEST_COMPLETE 0 true (bd_chunks_data ks) (dv_selp dv_rq_hook (dv_log cb g (OpOpen :: map OpReqData chunks))).
+Proof. exact dv_c06_request_chunked. Qed.
+Print Assumptions C06_delivery_request_chunked.
+Theorem C06_delivery_response_cl : forall cb g rq r (cuts : list (list bytes)) (body : bytes) (chunks : list bytes),
+  wr_all_ok cb -> g_allow_space_uri g = false -> wr_request_ok rq = true ->
+  sr_response_ok r = true -> sr_cuts_ok r cuts = true -> sr_framed cb g rq r cuts body = true -> sr_fits g r cuts = true ->
+  Forall (fun x => x <> []) chunks -> concat chunks = sr_wire r cuts body ->
+  sr_f1_free body (negb (sr_is_nil (sr_lines r cuts))) chunks = true ->
+  dv_c06 H_RESPONSE_BODY_DATA H_RESPONSE_COMPLETE 0 false body
+    (dv_selp dv_rs_hook (dv_log cb g (OpOpen :: OpReqData (wr_request_wire rq) :: map OpResData chunks))).
+Proof. exact dv_c06_response_cl. Qed.
+Print Assumptions C06_delivery_response_cl.
+Theorem C06_delivery_response_chunked : forall cb g rq r (cuts : list (list bytes)) (ks : list bd_chunk) (last : bytes) (tr : list wr_field)
+    (tcuts : list (list bytes)) (chunks : list bytes),
+  wr_all_ok cb -> g_allow_space_uri g = false -> wr_request_ok rq = true ->
+  sr_response_ok r = true -> sr_cuts_ok r cuts = true -> sr_framed_ch cb g rq r cuts = true -> sr_fits g r cuts = true ->
+  sr_cfbody_ok g r ks last tr tcuts = true ->
+  Forall (fun x => x <> []) chunks -> concat chunks = sr_wire r cuts (sr_cfbody_wire ks last tr tcuts) ->
+  sr_f1_free (sr_cfbody_wire ks last tr tcuts) (negb (sr_is_nil (sr_lines r cuts))) chunks = true ->
+  dv_c06 H_RESPONSE_BODY_DATA H_RESPONSE_COMPLETE 0 false (bd_chunks_data ks)
+    (dv_selp dv_rs_hook (dv_log cb g (OpOpen :: OpReqData (wr_request_wire rq) :: map OpResData chunks))).
+Proof. exact dv_c06_response_chunked. Qed.
+Print Assumptions C06_delivery_response_chunked.
+Theorem C06_delivery_response_close : forall cb g rq r (cuts : list (list bytes)) (body : bytes) (chunks : list bytes),
+  wr_all_ok cb -> g_allow_space_uri g = false -> wr_request_ok rq = true ->
+  sr_response_ok r = true -> sr_cuts_ok r cuts = true -> sr_framed_close cb g rq r cuts = true -> sr_fits g r cuts = true ->
+  Forall (fun x => x <> []) chunks -> concat chunks = sr_wire r cuts body ->
+  sr_f1_free body (negb (sr_is_nil (sr_lines r cuts))) chunks = true ->
+  dv_c06 H_RESPONSE_BODY_DATA H_RESPONSE_COMPLETE 0 false body
+    (dv_selp dv_rs_hook (dv_log cb g (OpOpen :: OpReqData (wr_request_wire rq) :: map OpResData chunks ++ [OpClose]))).
+Proof. exact dv_c06_response_close. Qed.
+Print Assumptions C06_delivery_response_close.
+(* the exact shapes: one marker, or two for Content-Length responses *)
+Theorem C06_response_cl_exact : forall cb g rq r (cuts : list (list bytes)) (body : bytes) (chunks : list bytes),
+  wr_all_ok cb -> g_allow_space_uri g = false -> wr_request_ok rq = true ->
+  sr_response_ok r = true -> sr_cuts_ok r cuts = true -> sr_framed cb g rq r cuts body = true -> sr_fits g r cuts = true ->
+  Forall (fun x => x <> []) chunks -> concat chunks = sr_wire r cuts body ->
+  sr_f1_free body (negb (sr_is_nil (sr_lines r cuts))) chunks = true ->
+  dv_delivered_k H_RESPONSE_BODY_DATA H_RESPONSE_COMPLETE 0 (dv_nmark body) body
+    (dv_selp dv_rs_hook (dv_log cb g (OpOpen :: OpReqData (wr_request_wire rq) :: map OpResData chunks))).
+Proof. exact dv_response_body_delivery_whole. Qed.
